@@ -170,6 +170,82 @@ Proof.
   intros Hp Hn H. pose proof (gate_unauthenticated outer inner e k Hp Hn) as G. rewrite H in G. exact G.
 Qed.
 
+(* ---------- C15: the authd flag of a connection ---------- *)
+
+(* the message presents the configured password: requirepass is set at that moment and the HTTP
+   credentials match, or it is an AUTH whose argument matches *)
+Definition presents_password (outer : string) (e : env) (k : cred) : Prop :=
+  e_requirepass e = true /\ (k_http_auth k = Some true \/ (outer = "auth" /\ k_auth_arg_ok k = true)).
+
+Lemma run_gate_authd_tail steps outer inner e k :
+  ~ In GAuth steps -> forall a, run_gate_authd steps outer inner e k a = a.
+Proof.
+  induction steps as [|st rest IH]; intros Hn a; [reflexivity|].
+  assert (Hr : ~ In GAuth rest) by (intros H; apply Hn; right; exact H).
+  destruct st; cbn [run_gate_authd];
+    try (exfalso; apply Hn; left; reflexivity);
+    repeat match goal with |- context [if ?b then _ else _] => destruct b end;
+    try reflexivity; apply IH; exact Hr.
+Qed.
+
+(* one message: the flag is true afterwards only if it was true before or the password was presented *)
+Lemma authd_only_by_password :
+  authd_assignments = 1 /\
+  forall outer inner e k, gate_authd outer inner e k = true ->
+    k_authd k = true \/ presents_password outer e k.
+Proof.
+  split; [vm_compute; reflexivity|].
+  intros outer inner e k. unfold gate_authd, presents_password.
+  change gate_order with (ltac:(let x := eval vm_compute in gate_order in exact x)).
+  cbn [run_gate_authd].
+  destruct (k_authd k) eqn:Ea; [intros _; left; reflexivity|].
+  destruct (in_strs outer early_reply_cmds); [discriminate|].
+  destruct (e_loading e && negb (in_strs inner loading_exempt)); [discriminate|].
+  destruct (String.eqb outer "hello"); [discriminate|].
+  cbn [negb orb].
+  destruct (in_strs outer auth_exempt); cbn [negb andb]; [discriminate|].
+  destruct (e_requirepass e) eqn:Ep.
+  - destruct (String.eqb_spec outer "auth") as [Eo|Eo].
+    + destruct (k_http_auth k) as [[|]|] eqn:Eh; try discriminate.
+      * intros _. right. split; [reflexivity | left; reflexivity].
+      * destruct (k_auth_arg_ok k) eqn:Ek; [|discriminate].
+        intros _. right. split; [reflexivity | right; split; [exact Eo | reflexivity]].
+    + destruct (k_http_auth k) as [[|]|] eqn:Eh; try discriminate.
+      intros _. right. split; [reflexivity | left; reflexivity].
+  - destruct (String.eqb inner "auth"); discriminate.
+Qed.
+
+(* a whole connection: if no message of the history presented the password (in particular: every
+   message sent while NO password was configured), the flag is still false — whatever the
+   configuration was at each moment *)
+Lemma conn_never_authd_without_password ms :
+  Forall (fun m => ~ presents_password (cm_outer m) (cm_env m) (cmsg_cred false m)) ms ->
+  conn_authd ms false = false.
+Proof.
+  induction ms as [|m rest IH]; intros H; [reflexivity|].
+  inversion H as [|? ? Hm Hr]; subst. cbn [conn_authd].
+  destruct (gate_authd (cm_outer m) (cm_inner m) (cm_env m) (cmsg_cred false m)) eqn:E.
+  - exfalso. apply (proj2 authd_only_by_password) in E. destruct E as [E|E]; [discriminate E | exact (Hm E)].
+  - apply IH. exact Hr.
+Qed.
+
+(* ... hence the next message of such a connection is gated like one of a new connection *)
+Lemma stale_connection_gated ms m :
+  Forall (fun x => ~ presents_password (cm_outer x) (cm_env x) (cmsg_cred false x)) ms ->
+  e_requirepass (cm_env m) = true ->
+  cm_http_auth m <> Some true -> (cm_outer m = "auth" -> cm_auth_arg_ok m = false) ->
+  match gate (cm_outer m) (cm_inner m) (cm_env m) (cmsg_cred (conn_authd ms false) m) with
+  | VEarly => In (cm_outer m) ["ping"; "echo"]
+  | VErr _ => True
+  | VAuthOK => False
+  | VRun _ _ _ => In (cm_outer m) ["output"; "healthz"]
+  end.
+Proof.
+  intros Hms Hp Hh Ha. rewrite (conn_never_authd_without_password ms Hms).
+  apply gate_unauthenticated; [exact Hp|]. unfold no_credentials, cmsg_cred. cbn.
+  split; [reflexivity | split; [exact Hh | exact Ha]].
+Qed.
+
 (* ---------- C07: lock table soundness ---------- *)
 
 Lemma cmd_lock_sound_all : forall c, in_strs c dev_only = false -> cmd_lock_sound c = true.
